@@ -75,6 +75,7 @@ type replVal struct {
 	a    addr // full
 	l    int  // bare local class
 	text string
+	kind string // spelling kind of text
 }
 
 type mods struct {
@@ -193,49 +194,18 @@ type leaf struct {
 	target int
 	rcpt   addr
 	via    string // which kind of rule selected the blocks: <source>><destination>, each table/address/domain/default/implicit
-	viaS   string
-	viaR   string
-	// how the selecting rule was spelled relative to the address it matched (top level only):
-	// literal, equiv, rewritten (the address came out of a rewrite), - (default/implicit), nested
-	litS  string
-	litR  string
-	depth int
-}
-
-// alt describes a deliberately WRONG router used only to name the cause class of a
-// discrepancy ("the implementation behaved as if ..."); nil is the reference router.
-type alt struct {
-	forceSrc, forceRcpt   int // top level: use this item index instead of the selected one (-1 = keep)
-	skipGlobalRcpt        bool
-	skipSourceRcpt        bool
-	skipDestRcpt          bool
-	skipGlobalSender      bool // sender rewriting of the top-level scope ignored for selection
-	skipSourceSender      bool
-	rerouteOnOriginalRcpt bool
+	depth  int
 }
 
 type router struct {
-	al *alphabet
-	// statistics for the evidence
-	stats map[string]int
-	quiet bool
+	al    *alphabet
+	stats map[string]int // statistics for the evidence (nil: do not count)
 }
 
 func (r *router) count(k string) {
-	if !r.quiet {
+	if r.stats != nil {
 		r.stats[k]++
 	}
-}
-
-func (t *replTable) hits(x addr) bool {
-	if x.null {
-		return false
-	}
-	if vs, ok := t.full[x]; ok && len(vs) > 0 {
-		return true
-	}
-	vs, ok := t.local[x.l]
-	return ok && len(vs) > 0
 }
 
 func (t *replTable) apply(x addr) []addr {
@@ -263,24 +233,21 @@ func (t *replTable) apply(x addr) []addr {
 	return []addr{x}
 }
 
-func (m *mods) rewriteSender(x addr) (addr, bool) {
-	hit := false
+func (m *mods) rewriteSender(x addr) addr {
 	if m == nil {
-		return x, false
+		return x
 	}
 	for _, t := range m.tables {
 		if t.sender {
-			hit = hit || t.hits(x)
 			x = t.apply(x)[0]
 		}
 	}
-	return x, hit
+	return x
 }
 
-func (m *mods) rewriteRcpt(xs []addr) ([]addr, bool) {
-	hit := false
+func (m *mods) rewriteRcpt(xs []addr) []addr {
 	if m == nil {
-		return xs, false
+		return xs
 	}
 	for _, t := range m.tables {
 		if t.sender {
@@ -288,12 +255,11 @@ func (m *mods) rewriteRcpt(xs []addr) ([]addr, bool) {
 		}
 		var out []addr
 		for _, x := range xs {
-			hit = hit || t.hits(x)
 			out = append(out, t.apply(x)...)
 		}
 		xs = out
 	}
-	return xs, hit
+	return xs
 }
 
 func selectItem(items []item, x addr) (int, string) {
@@ -332,130 +298,54 @@ func selectItem(items []item, x addr) (int, string) {
 	return -1, "none"
 }
 
-// literalness says how the rule that selected item it is spelled relative to the text of the address.
-func (r *router) literalness(it item, via string, x addr, text string, rewritten bool, depth int) string {
-	switch {
-	case depth > 0:
-		return "nested"
-	case via == "default" || via == "implicit" || via == "forced":
-		return "-"
-	case rewritten:
-		return "rewritten"
-	}
-	switch via {
-	case "table":
-		if r.al.canon(x) == text {
-			return "literal"
-		}
-		return "equiv"
-	case "address":
-		for _, ru := range it.rules {
-			if ru.isAddr && ru.a == x {
-				if ru.sp.text == text {
-					return "literal"
-				}
-				return "equiv"
-			}
-		}
-	case "domain":
-		dom := text
-		if i := strings.LastIndexByte(text, '@'); i >= 0 {
-			dom = text[i+1:]
-		}
-		for _, ru := range it.rules {
-			if !ru.isAddr && ru.d == x.d {
-				if ru.sp.text == dom {
-					return "literal"
-				}
-				return "equiv"
-			}
-		}
-	}
-	return "?"
-}
-
-// route evaluates one recipient of a message through pipeline p (a == nil: the reference).
-func (r *router) route(p *pipe, sender addr, senderText string, rcpt addr, rcptText string, a *alt) []leaf {
-	selSender, sHit := p.mods.rewriteSender(sender)
-	passSender := selSender
-	if a != nil && a.skipGlobalSender {
-		selSender, sHit = sender, false
-	}
+// route evaluates one recipient of a message through pipeline p.
+func (r *router) route(p *pipe, sender addr, rcpt addr) []leaf {
+	sender = p.mods.rewriteSender(sender)
 	var sb *srcBlock
-	viaS, litS := "implicit", "-"
+	viaS := "implicit"
 	if p.implicit != nil {
 		sb = p.implicit
 	} else {
-		i, via := selectItem(p.items, selSender)
-		if a != nil && p.depth == 0 && a.forceSrc >= 0 {
-			i, via = a.forceSrc, "forced"
-		}
+		i, via := selectItem(p.items, sender)
 		if i < 0 {
 			panic("model: incomplete pipeline evaluated")
 		}
 		sb, viaS = p.items[i].src, via
-		litS = r.literalness(p.items[i], via, selSender, senderText, sHit, p.depth)
 	}
 	r.count(fmt.Sprintf("model_source_via_%s_depth%d", viaS, p.depth))
-	finalSender, _ := sb.mods.rewriteSender(passSender)
-	if a != nil && a.skipSourceSender {
-		finalSender = passSender
-	}
-	rcpts, rHit := []addr{rcpt}, false
-	if a == nil || !a.skipGlobalRcpt {
-		rcpts, rHit = p.mods.rewriteRcpt(rcpts)
-	}
-	if a == nil || !a.skipSourceRcpt {
-		var h bool
-		rcpts, h = sb.mods.rewriteRcpt(rcpts)
-		rHit = rHit || h
-	}
+	finalSender := sb.mods.rewriteSender(sender)
+	rcpts := sb.mods.rewriteRcpt(p.mods.rewriteRcpt([]addr{rcpt}))
 	if len(rcpts) > 1 {
 		r.count("model_rcpt_expanded_before_selection")
 	}
 	var out []leaf
 	for _, rc := range rcpts {
 		var rb *rcptBlock
-		viaR, litR := "implicit", "-"
+		viaR := "implicit"
 		if sb.implicit != nil {
 			rb = sb.implicit
 		} else {
 			i, via := selectItem(sb.items, rc)
-			if a != nil && p.depth == 0 && a.forceRcpt >= 0 && a.forceRcpt < len(sb.items) {
-				i, via = a.forceRcpt, "forced"
-			}
 			if i < 0 {
 				panic("model: incomplete source block evaluated")
 			}
 			rb, viaR = sb.items[i].rcpt, via
-			litR = r.literalness(sb.items[i], via, rc, rcptText, rHit, p.depth)
 		}
 		r.count(fmt.Sprintf("model_destination_via_%s_depth%d", viaR, p.depth))
-		mk := func(l leaf) leaf {
-			l.via, l.viaS, l.viaR, l.litS, l.litR, l.depth = viaS+">"+viaR, viaS, viaR, litS, litR, p.depth
-			return l
-		}
 		if rb.reject != nil {
-			out = append(out, mk(leaf{refuse: rb.reject}))
+			out = append(out, leaf{refuse: rb.reject, via: viaS + ">" + viaR, depth: p.depth})
 			continue
 		}
-		finals := []addr{rc}
-		if a == nil || !a.skipDestRcpt {
-			finals, _ = rb.mods.rewriteRcpt(finals)
-		}
+		finals := rb.mods.rewriteRcpt([]addr{rc})
 		if len(finals) > 1 {
 			r.count("model_rcpt_expanded_in_destination")
 		}
 		for _, f := range finals {
 			for _, t := range rb.targets {
 				if t.reroute != nil {
-					in := f
-					if a != nil && a.rerouteOnOriginalRcpt {
-						in = rcpt
-					}
-					out = append(out, r.route(t.reroute, finalSender, "", in, "", a)...)
+					out = append(out, r.route(t.reroute, finalSender, f)...)
 				} else {
-					out = append(out, mk(leaf{target: t.script, rcpt: f}))
+					out = append(out, leaf{target: t.script, rcpt: f, via: viaS + ">" + viaR, depth: p.depth})
 				}
 			}
 		}
@@ -543,8 +433,8 @@ func (g *gen) newReplTable(sender bool) *replTable {
 			var vs []replVal
 			for j := 0; j < nv; j++ {
 				a := g.anyAddr()
-				txt, _ := g.al.spellRandom(g.p, a)
-				vs = append(vs, replVal{a: a, text: txt})
+				txt, kind := g.al.spellRandom(g.p, a)
+				vs = append(vs, replVal{a: a, text: txt, kind: kind})
 			}
 			t.full[k] = vs
 			t.order = append(t.order, replKey{a: k})
@@ -561,8 +451,8 @@ func (g *gen) newReplTable(sender bool) *replTable {
 			var vs []replVal
 			for j := 0; j < nv; j++ {
 				nl := g.p.Intn(len(g.al.locals))
-				sp := g.al.locals[nl].sp
-				vs = append(vs, replVal{bare: true, l: nl, text: sp[g.p.Intn(len(sp))].s})
+				sp := g.al.locals[nl].sp[g.p.Intn(len(g.al.locals[nl].sp))]
+				vs = append(vs, replVal{bare: true, l: nl, text: sp.s, kind: sp.kind})
 			}
 			t.local[l] = vs
 			t.order = append(t.order, replKey{isLocal: true, l: l})
@@ -572,8 +462,8 @@ func (g *gen) newReplTable(sender bool) *replTable {
 	if len(t.order) == 0 {
 		k := g.anyAddr()
 		a := g.anyAddr()
-		txt, _ := g.al.spellRandom(g.p, a)
-		t.full[k] = []replVal{{a: a, text: txt}}
+		txt, kind := g.al.spellRandom(g.p, a)
+		t.full[k] = []replVal{{a: a, text: txt, kind: kind}}
 		t.order = append(t.order, replKey{a: k})
 	}
 	return t
